@@ -133,11 +133,6 @@ func zzGraph(pBound, t int, fixed bool) {
 	for i := 0; i < t; i++ {
 		accepted[i] = r.Run(mk(i)) == nil
 	}
-	// an unknown prerequisite is refused at submission
-	bad := mk(0)
-	bad.Name = "tx"
-	bad.Wait = []string{"nosuch"}
-	nd.Assert(r.Run(bad) != nil, "C14/unknown-prerequisite-refused")
 	mgr, err := unit.FromScope(scp)
 	nd.Assert(err == nil, "C14/manager")
 	werr := mgr.Wait()
@@ -196,5 +191,22 @@ func zzGraph(pBound, t int, fixed bool) {
 		nd.Assert(b < 0 || e >= 0, "C14/wait-returned-before-body-ended")
 	}
 	nd.Assert((werr != nil) == anyFailed, "C14/wait-error-iff-some-task-failed")
+	// an unknown prerequisite is refused at submission (probed when all
+	// tasks have finished: the refusal does not depend on the schedule)
+	bad := mk(0)
+	bad.Name = "tx"
+	// ... wherever the unknown name stands in the wait list (before, between
+	// or behind the names of existing tasks)
+	var known []string
+	for i := 0; i < t; i++ {
+		if accepted[i] {
+			known = append(known, names[i])
+		}
+	}
+	for at := 0; at <= len(known); at++ {
+		bad.Name = []string{"tx0", "tx1", "tx2", "tx3"}[at]
+		bad.Wait = append(append(append([]string{}, known[:at]...), "nosuch"), known[at:]...)
+		nd.Assert(r.Run(bad) != nil, "C14/unknown-prerequisite-refused")
+	}
 	nd.Reach("C14/graph-end")
 }
